@@ -25,7 +25,8 @@ PROFILES = {
     'C05': dict(weights=_w(add_expr=24, to_expr=8, apply=6, quant=1, let=1,
                            gc=2, swap=3, reorder=1, reject=3),
                 flavors=['raw', 'autoref'], nv=(1, 7), steps=(15, 80),
-                m1_rate=0.2, reject_kinds=['formula_name', 'formula_syntax', 'formula_node']),
+                m1_rate=0.2, reject_kinds=['formula_name', 'formula_syntax', 'formula_node'],
+                doc_cases=0.08),
     'C06': dict(weights=_w(apply=12, drop=12, dup=5, gc=10, swap=5, reorder=2,
                            pairs=1, find_or_add=3),
                 flavors=['raw'], nv=(2, 7), steps=(20, 160)),
@@ -36,7 +37,7 @@ PROFILES = {
     'C08': dict(weights=_w(apply=8, fop=10, drop=14, dup=5, traverse=8,
                            gc=5, reorder=3, finalize=4, arm_final=4,
                            configure=1, arm=2, quant=2, let=2),
-                flavors=['autoref'], nv=(2, 7), steps=(20, 140)),
+                flavors=['autoref'], nv=(2, 7), steps=(20, 140), copy_copy=0.1),
     'C09': dict(weights=_w(apply=12, ite=4, fop=4, quant=5, let=6, cube=3,
                            var=6, find_or_add=2, add_expr=4, drop=5, gc=1,
                            swap=0, reorder=0, pairs=0, configure=1, arm=14,
@@ -80,6 +81,14 @@ def make_cfg(prop, seed, tier='quick', idx=0):
     r = prng.stream(seed, 'cfg')
     nv = r.randint(*P['nv'])
     names = r.sample(gen.NAME_POOL, nv)
+    doc_cases = None
+    if P.get('doc_cases'):
+        x = r.random()
+        if x < P['doc_cases']:
+            doc_cases = 'dotted'
+            names[r.randrange(nv)] = r.choice(gen.DOTTED_POOL)
+        elif x < 2 * P['doc_cases']:
+            doc_cases = 'lowercase'
     flavor = r.choice(P['flavors'])
     weights = dict(P['weights'])
     # swarm: switch off a random subset of the optional op kinds
@@ -116,7 +125,8 @@ def make_cfg(prop, seed, tier='quick', idx=0):
         disk_faults=r.random() < P.get('disk_faults', 0.0),
         fault_rate=r.choice([0.15, 0.3, 0.5]),
         reject_kinds=P.get('reject_kinds'),
-        copy_copy=False, sift_tiny=bool(P.get('sift_tiny')),
+        copy_copy=bool(P.get('copy_copy')) and r.random() < P['copy_copy'],
+        sift_tiny=bool(P.get('sift_tiny')), doc_cases=doc_cases,
     )
     # open known findings: most runs steer around the trigger so that
     # exploration continues past it; the rest confirm it is still the same
